@@ -455,7 +455,9 @@ def infer_table(t):
     if k == 'TableUnion':
         cs = [infer_table(x) for x in a]
         if any(c['row'] != cs[0]['row'] or c['key'] != cs[0]['key'] for c in cs):
-            raise IllTyped('TableUnion of different row types / keys')
+            raise IllTyped('TableUnion of different row types / keys (engine TypeCheck: all children have the row type and key of '
+                           'the first): ' + ' | '.join(show(c['row']) + ' key=' + str(c['key']) for c in cs),
+                           'table-union-children-row-types-differ')
         return cs[0]
     if k == 'TableLeftJoinRightDistinct':
         rule = _join_rules()['TableLeftJoinRightDistinct']
